@@ -65,6 +65,15 @@ func (c *DNSCache) lookup(ctx context.Context, name string) (*dnsCacheEntry, boo
 		return nil, false
 	}
 
+	if c.size <= 0 {
+		// A cache without capacity stores nothing (the eviction loop below could never
+		// make room and would spin forever holding the mutex): resolve every time.
+		return &dnsCacheEntry{
+			addrs:   addrs,
+			expires: time.Now().Add(c.duration),
+		}, false
+	}
+
 	c.mutex.Lock()
 	defer c.mutex.Unlock()
 
